@@ -1,7 +1,7 @@
 #!/usr/bin/env python3
 """Seeded changes (property-breaking patches written by agents that saw only the property text).
 
-  tools/seeded.py import <P> <dir>     copy <dir>/patch{k}.diff, demo{k}.md, meta{k}.json to seeded/<P>-{a,b}/
+  tools/seeded.py import <P> <dir> [cd]  copy <dir>/patch{k}.diff, demo{k}.md, meta{k}.json to seeded/<P>-{a,b}/ (or -{c,d})
   tools/seeded.py run [name ...] [--checks C01,C02] [--tier quick]
         for each seeded/<name>: apply patch.diff to /repo (must be clean), build the harness into a
         scratch target directory, run the listed checks (default: the check of the change's own
@@ -26,8 +26,8 @@ def repo_clean():
     return sh(f"git -C {REPO} status --porcelain").stdout.strip() == ""
 
 
-def do_import(prop, src):
-    for k, suffix in ((1, "a"), (2, "b")):
+def do_import(prop, src, letters="ab"):
+    for k, suffix in ((1, letters[0]), (2, letters[1])):
         p = os.path.join(src, f"patch{k}.diff")
         if not os.path.exists(p):
             continue
@@ -115,7 +115,7 @@ def main():
         print(__doc__)
         return
     if a[0] == "import":
-        do_import(a[1], a[2])
+        do_import(a[1], a[2], a[3] if len(a) > 3 else "ab")
         return
     if a[0] == "run":
         names, checks, tier = [], None, "quick"
